@@ -152,6 +152,9 @@ func structField(r *Run, st structure, t types.Type, name string) value {
 	panic(unsupported("no field " + name))
 }
 
+// reversedV is what sort.Reverse returns (see the sort.Sort stub).
+type reversedV struct{ x value }
+
 var tcMemoMu sync.Mutex
 var tcMemo = map[string]string{}
 
@@ -176,6 +179,60 @@ func LayoutStubs(st map[string]StubFn) {
 	}
 	st["sort.SliceStable"] = sorter
 	st["sort.Slice"] = sorter
+	// sort.Sort / sort.Stable on a sort.StringSlice / sort.IntSlice of concrete elements, also
+	// wrapped in sort.Reverse (any other sort.Interface is refused)
+	st["sort.Reverse"] = func(r *Run, fr *frame, fn *ssa.Function, a []value) value {
+		return iface{v: reversedV{a[0]}}
+	}
+	sortIface := func(r *Run, fr *frame, fn *ssa.Function, a []value) value {
+		v := a[0]
+		desc := false
+		for {
+			if iv, ok := v.(iface); ok {
+				if rv, ok := iv.v.(reversedV); ok {
+					desc = !desc
+					v = rv.x
+					continue
+				}
+				if iv.t == nil || (iv.t.String() != "sort.StringSlice" && iv.t.String() != "sort.IntSlice") {
+					panic(unsupported("sort.Sort on " + fmt.Sprint(iv.t)))
+				}
+				v = iv.v
+				continue
+			}
+			break
+		}
+		sl, ok := v.([]value)
+		if !ok {
+			panic(unsupported("sort.Sort on a non-slice"))
+		}
+		less := func(x, y value) bool {
+			switch p := x.(type) {
+			case string:
+				q, ok := y.(string)
+				if !ok {
+					panic(unsupported("sort.Sort on symbolic elements"))
+				}
+				return p < q
+			case int:
+				q, ok := y.(int)
+				if !ok {
+					panic(unsupported("sort.Sort on symbolic elements"))
+				}
+				return p < q
+			}
+			panic(unsupported("sort.Sort on symbolic elements"))
+		}
+		sort.SliceStable(sl, func(i, j int) bool {
+			if desc {
+				return less(sl[j], sl[i])
+			}
+			return less(sl[i], sl[j])
+		})
+		return nil
+	}
+	st["sort.Sort"] = sortIface
+	st["sort.Stable"] = sortIface
 	st["go/printer.Fprint"] = func(r *Run, fr *frame, fn *ssa.Function, a []value) value {
 		if r.Env["printer"] == "fail" {
 			r.Effects = append(r.Effects, Effect{Op: "printer.Fprint"})
